@@ -93,6 +93,17 @@ Inductive vrel : value -> value -> Prop :=
     iFormatter i = false -> iSafeFormatter i = false -> iSafeMessager i = false ->
     (x1 = x2 \/ srel x1 x2) -> vrel r1 r2 ->
     vrel (VUser t i false r1 (ARet x1 :: rest1)) (VUser t i false r2 (ARet x2 :: rest2))
+(* ... or panics with related payloads; or is called on a nil pointer receiver *)
+| vr_puser t i r1 r2 v1 v2 rest1 rest2 :
+    treg t = false -> tsv t = false ->
+    iFormatter i = false -> iSafeFormatter i = false -> iSafeMessager i = false ->
+    arel v1 v2 -> vrel r1 r2 ->
+    vrel (VUser t i false r1 (APanic v1 :: rest1)) (VUser t i false r2 (APanic v2 :: rest2))
+| vr_nuser t i r1 r2 sc1 sc2 :
+    treg t = false -> tsv t = false ->
+    iFormatter i = false -> iSafeFormatter i = false -> iSafeMessager i = false ->
+    vrel r1 r2 ->
+    vrel (VUser t i true r1 sc1) (VUser t i true r2 sc2)
 (* values whose Format / SafeFormat method runs a script against the printer: the same calls with
    related payloads and operands *)
 | vr_fmtuser t i r1 r2 sc1 sc2 :
@@ -129,6 +140,7 @@ with actrel : action -> action -> Prop :=
     | AUnsafeByte _ | AUnsafeRune _ | ADump => True
     | _ => False
     end -> actrel a a
+| ac_panic v1 v2 : arel v1 v2 -> actrel (APanic v1) (APanic v2)
 | ac_print a1 a2 : Forall2 arel a1 a2 -> actrel (APrint a1) (APrint a2)
 | ac_printf f a1 a2 : no_star f = true -> Forall2 arel a1 a2 -> actrel (APrintf f a1) (APrintf f a2).
 
@@ -1295,6 +1307,102 @@ Section Rec.
       eapply JS_bind; [|intros; now apply J_ret]. apply Jcatch_panic; [exact Hnp | apply kovr_keeps, keeps_fmtString, Hkeeps | exact Hf].
   Qed.
 
+  (* ... whose method panics (or is called on a nil receiver) *)
+  Lemma J_panic v1 v2 : arel v1 v2 -> J any (@panic unit v1) (@panic unit v2).
+  Proof. intros Hv s1 s2 N S _. unfold panic. refine (conj Hv (conj N (conj S _))). apply seg_refl. Qed.
+
+  Lemma unsafe_panic_run (v : value) s :
+    bracket start_unsafe (@panic unit v) s =
+    (RPanic v, set_pl s (lset (if ovr_eqb (povr s) OvrSafe then pl s else lset (pl s) (OMode MUnsafe)) (OMode (lmode (pl s))))).
+  Proof.
+    unfold bracket, start_unsafe, bind, get_mode, Printer.get, panic.
+    destruct (ovr_eqb (povr s) OvrSafe).
+    - unfold ret. cbn iota beta zeta. rewrite restore_state. cbn [fst snd]. destruct s; reflexivity.
+    - rewrite setmode_state. unfold ret. cbn iota beta zeta. rewrite restore_state. cbn [fst snd]. destruct s; reflexivity.
+  Qed.
+
+  Lemma Junsafe_panic v1 v2 : arel v1 v2 ->
+    JS (HS False) any (bracket start_unsafe (@panic unit v1)) (bracket start_unsafe (@panic unit v2)).
+  Proof.
+    intros Hv s1 s2 N S Hs. rewrite !unsafe_panic_run. rewrite <- (nb_ovr _ _ N), <- (nb_mode _ _ N).
+    assert (ovr_eqb (povr s1) OvrSafe = false) as -> by (destruct (povr s1) eqn:E; try reflexivity; destruct (Hs E)).
+    refine (conj Hv (conj _ (conj _ _))).
+    - apply NB_set_pl; [exact N | now rewrite !lmode_setmode | intros X; destruct (Hs X)].
+    - intros X. destruct s1; cbn in X. destruct (Hs X).
+    - exists [OMode (lmode (pl s1)); OMode MUnsafe], [OMode (lmode (pl s1)); OMode MUnsafe]. rewrite !pl_set_pl, !rlog_lset.
+      split; [reflexivity|]. split; [reflexivity|]. cbn [rev app]. rewrite lmode_setmode. apply ds_mode, ds_mode. constructor.
+  Qed.
+
+  Definition user_stdp (a : value) (i : ifaces) (v : value) (verb : Z) : M bool :=
+    f <- getf ;;
+    if sharpV (fl f) then
+      if iGoStringer i then catch_panic rec a verb "GoString" (bracket start_unsafe (@panic unit v)) ;;; ret true
+      else ret false
+    else if isv verb "vsxXq" then
+      if iError i then catch_panic rec a verb "Error" (@panic unit v) ;;; ret true
+      else if iStringer i then catch_panic rec a verb "String" (@panic unit v) ;;; ret true
+      else ret false
+    else ret false.
+
+  Lemma handleMethods_puser_run verb s t i nr r sc v :
+    parg s = Some (VUser t i nr r sc) -> wrapErrs s = false ->
+    (forall s0, user_string (VUser t i nr r sc) s0 = (RPanic v, s0)) ->
+    iFormatter i = false -> iSafeFormatter i = false -> iSafeMessager i = false ->
+    handleMethods rec env verb s =
+    if erroring s then (ROk false, s)
+    else if verb =? 119 then hm_bad verb s
+    else via_hook (VUser t i nr r sc) i verb s (user_stdp (VUser t i nr r sc) i v verb) s.
+  Proof.
+    intros Ea Hw Hus F1 F2 F3. unfold handleMethods, bind at 1, Printer.get. cbn iota beta.
+    destruct (erroring s); [reflexivity|]. rewrite Ea, Hw. cbn [negb orb]. rewrite Bool.orb_true_r, Bool.andb_true_r.
+    destruct (verb =? 119); [reflexivity|].
+    unfold bind at 1, ret at 1. cbn iota beta.
+    rewrite F1, F2, F3. unfold via_hook.
+    assert (forall (K : bytes -> M unit) s0, (str <- user_string (VUser t i nr r sc) ;; K str) s0 = @panic unit v s0) as Hb
+      by (intros K s0; unfold bind; rewrite Hus; reflexivity).
+    assert (forall s0, (f <- getf ;;
+              (if sharpV (fl f)
+               then if iGoStringer i
+                    then catch_panic rec (VUser t i nr r sc) verb "GoString"
+                           (bracket start_unsafe (str <- user_string (VUser t i nr r sc) ;; f0 <- getf ;; wr (fmt_s f0 str))) ;;; ret true
+                    else ret false
+               else if isv verb "vsxXq"
+                    then if iError i
+                         then catch_panic rec (VUser t i nr r sc) verb "Error"
+                                (str <- user_string (VUser t i nr r sc) ;; fmtString rec env str verb) ;;; ret true
+                         else if iStringer i
+                              then catch_panic rec (VUser t i nr r sc) verb "String"
+                                     (str <- user_string (VUser t i nr r sc) ;; fmtString rec env str verb) ;;; ret true
+                              else ret false
+                    else ret false)) s0 = user_stdp (VUser t i nr r sc) i v verb s0) as Hstd.
+    { intros s0. unfold user_stdp. apply bind_cong_r. intros f s1.
+      destruct (sharpV (fl f)).
+      - destruct (iGoStringer i); [|reflexivity]. apply bind_cong_l.
+        apply catch_panic_ext. intros s2. apply bracket_ext. intros s3. apply Hb.
+      - destruct (isv verb "vsxXq"); [|reflexivity].
+        destruct (iError i); [apply bind_cong_l; apply catch_panic_ext; intros s2; apply Hb|].
+        destruct (iStringer i); [|reflexivity]. apply bind_cong_l; apply catch_panic_ext; intros s2; apply Hb. }
+    destruct nr.
+    - destruct (negb (ovr_eqb (povr s) OvrUnsafe)); cbn [andb]; [|apply Hstd].
+      destruct (iError i); [|apply Hstd]. destruct (hook env); [reflexivity | apply Hstd].
+    - destruct (negb (ovr_eqb (povr s) OvrUnsafe)); cbn [andb]; [|apply Hstd].
+      destruct (iError i); [|apply Hstd]. destruct (hook env); [reflexivity | apply Hstd].
+  Qed.
+
+  Lemma Juser_stdp a1 a2 i v1 v2 verb : is_nil_ptr a1 = is_nil_ptr a2 -> arel v1 v2 ->
+    JS (HS False) eq (user_stdp a1 i v1 verb) (user_stdp a2 i v2 verb).
+  Proof.
+    intros Hnp Hv. unfold user_stdp.
+    eapply JS_bind_k; [apply J_JS, J_getf | apply kovr_getf | intros f ? <-].
+    destruct (sharpV (fl f)).
+    - destruct (iGoStringer i); [|apply J_JS; now apply J_ret].
+      eapply JS_bind; [|intros; now apply J_ret]. apply Jcatch_panic; [exact Hnp | apply kovr_keeps, keeps_bracket, start_ok_unsafe | now apply Junsafe_panic].
+    - destruct (isv verb "vsxXq"); [|apply J_JS; now apply J_ret].
+      destruct (iError i); [eapply JS_bind; [|intros; now apply J_ret]; apply Jcatch_panic; [exact Hnp | intros s; reflexivity | apply J_JS; now apply J_panic]|].
+      destruct (iStringer i); [|apply J_JS; now apply J_ret].
+      eapply JS_bind; [|intros; now apply J_ret]. apply Jcatch_panic; [exact Hnp | intros s; reflexivity | apply J_JS; now apply J_panic].
+  Qed.
+
   (* handleMethods on a value whose Format / SafeFormat method runs a script *)
   Lemma handleMethods_fmt_run verb s t i r sc :
     parg s = Some (VUser t i false r sc) -> wrapErrs s = false ->
@@ -1416,6 +1524,26 @@ Section Rec.
           destruct (negb (ovr_eqb (povr s1) OvrUnsafe) && iError i);
             [destruct (hook env) as [h|]; [apply Jscript_call; auto|]|];
             (apply Juser_std; auto).
+        * (* a String / Error / GoString method that panics *)
+          rewrite (handleMethods_puser_run verb s1 _ _ _ _ _ v1 E1 (nb_nw _ _ N)) by (try assumption; intros s0; reflexivity).
+          rewrite (handleMethods_puser_run verb s2 _ _ _ _ _ v2 E2 Hw2) by (try assumption; intros s0; reflexivity).
+          rewrite <- (nb_err _ _ N).
+          destruct (erroring s1); [refine (conj eq_refl (conj N (conj S _))); apply seg_refl|].
+          destruct (verb =? 119); [apply J_hm_bad; auto|].
+          unfold via_hook. rewrite <- (nb_ovr _ _ N).
+          destruct (negb (ovr_eqb (povr s1) OvrUnsafe) && iError i);
+            [destruct (hook env) as [h|]; [apply Jscript_call; auto|]|];
+            (apply Juser_stdp; auto).
+        * (* a method called on a nil pointer receiver *)
+          rewrite (handleMethods_puser_run verb s1 _ _ _ _ _ nil_recv_panic E1 (nb_nw _ _ N)) by (try assumption; intros s0; reflexivity).
+          rewrite (handleMethods_puser_run verb s2 _ _ _ _ _ nil_recv_panic E2 Hw2) by (try assumption; intros s0; reflexivity).
+          rewrite <- (nb_err _ _ N).
+          destruct (erroring s1); [refine (conj eq_refl (conj N (conj S _))); apply seg_refl|].
+          destruct (verb =? 119); [apply J_hm_bad; auto|].
+          unfold via_hook. rewrite <- (nb_ovr _ _ N).
+          destruct (negb (ovr_eqb (povr s1) OvrUnsafe) && iError i);
+            [destruct (hook env) as [h|]; [apply Jscript_call; auto|]|];
+            (apply Juser_stdp; auto; apply ar_v, vr_leaf, lrel_refl; reflexivity).
         * (* Format *)
           rewrite (handleMethods_fmt_run verb s1 _ _ _ _ E1 (nb_nw _ _ N)) by assumption.
           rewrite (handleMethods_fmt_run verb s2 _ _ _ _ E2 Hw2) by assumption.
@@ -1645,6 +1773,8 @@ Section Rec.
     - discriminate.
     - discriminate.
     - discriminate.
+    - discriminate.
+    - discriminate.
   Qed.
 
   (* a user value no method took: reflection prints its representation *)
@@ -1652,9 +1782,9 @@ Section Rec.
     JS (HS (v1 = v2 /\ lfs v1 = true)) any (print_kind fuel rec env v1 verb depth ci) (print_kind fuel rec env v2 verb depth ci).
   Proof.
     induction fuel as [|k IHf]; intros v1 v2 verb depth ci Hv; (destruct (isuser v1) eqn:U; [|now apply Jprint_kind_nu]).
-    - inversion Hv; subst; try discriminate; [destruct H as (L1 & _); destruct v1; discriminate| | | |];
+    - inversion Hv; subst; try discriminate; [destruct H as (L1 & _); destruct v1; discriminate| | | | | |];
         cbn [print_kind]; intros ? ? _ _ _; exact Logic.I.
-    - inversion Hv; subst; try discriminate; [destruct H as (L1 & _); destruct v1; discriminate| | | |];
+    - inversion Hv; subst; try discriminate; [destruct H as (L1 & _); destruct v1; discriminate| | | | | |];
         cbn [print_kind]; (eapply JS_weaken; [|apply IHf; eassumption]); intros ? ? Hx Ho; destruct (Hx Ho) as [_ Lx]; discriminate.
   Qed.
 
@@ -2138,6 +2268,7 @@ Section Rec.
       + apply Junsafe_w1, usegw_refl.
       + apply Junsafe_w1, usegw_refl.
       + eapply JS_bind_k; [apply J_JS, J_getf | apply kovr_getf | intros f ? <-]. apply Junsafe_w1, usegw_refl.
+    - apply J_JS. now apply J_panic.
     - apply Jnested; [cbn [crel]; assumption | reflexivity].
     - apply Jnested; [cbn [crel]; auto | reflexivity].
   Qed.
